@@ -236,7 +236,9 @@ int main(int argc, char **argv)
         {"-2", integer(-2)}, {"3", integer(3)},       {"-8", integer(-8)},  {"1/2", R(1, 2)},
         {"-1/2", R(-1, 2)},  {"2/3", R(2, 3)},        {"-3/2", R(-3, 2)},   {"I", I},
         {"1+I", add(one, I)}, {"0.5", real_double(0.5)}, {"-2.0", real_double(-2.0)}, {"pi", pi},
-        {"E", E},            {"x", x},                {"y", y}};
+        {"E", E},            {"x", x},                {"y", y},
+        // structured leaf (seed C04b): a rational power of a product, so that S1 holds products with a nested Mul base
+        {"sqrt(x*y)", sqrt(mul(x, y))}};
     if (opts().thorough()) {
         leaves.push_back({"4", integer(4)});
         leaves.push_back({"1/3", R(1, 3)});
